@@ -133,6 +133,22 @@ def delete_case(case, d):
         os.makedirs(base); open(os.path.join(base, 'x.txt'), 'w').write('x'); obj = None
     elif tk == 'file':
         open(base, 'w').write('just a file'); obj = None
+    elif tk in ('lookalike', 'lookalike_values', 'lookalike_indices'):
+        # a user's directory that merely LOOKS like (the remains of) an array: files and sub-directories
+        # with Darr's names, none of them Darr's
+        os.makedirs(base); obj = None
+        for nm in ('README.txt', 'arraydescription.json', 'metadata.json', 'notes.txt'):
+            open(os.path.join(base, nm), 'w').write('user text in ' + nm)
+        subs = {'lookalike': ('values', 'indices'), 'lookalike_values': ('values',),
+                'lookalike_indices': ('indices',)}[tk]
+        for sub in subs:
+            os.makedirs(os.path.join(base, sub))
+            for nm in ('arrayvalues.bin', 'README.txt', 'mine.txt'):
+                open(os.path.join(base, sub, nm), 'w').write('user data in ' + sub + '/' + nm)
+    elif tk in ('ragged_nodescr', 'array_nodescr'):
+        # a real array whose description file is gone: not an array any more, to be refused untouched
+        make('RaggedArray' if tk == 'ragged_nodescr' else 'Array', base, meta=True); obj = None
+        os.unlink(os.path.join(base, 'arraydescription.json'))
     else:
         obj = None
     for sp in case.get('foreign', []):
